@@ -234,3 +234,6 @@ func VerifGetItem(container, index interface{}) (interface{}, error) {
 	ctx := &RenderContext{}
 	return ctx.getItem(container, index)
 }
+
+// VerifEngineGlobals returns the engine's globals table itself (bindings), for before/after snapshots.
+func VerifEngineGlobals(e *Engine) map[string]interface{} { return e.environment.globals }
